@@ -140,46 +140,99 @@ func upgradeOp(mode string, chart string, v map[string]any) hx.Op {
 	return op
 }
 
-type bounds struct {
-	depth   int
-	inits   []string
-	vals    []namedVals
-	chartsF func(deployedChart string) []string
+// plan is one sub-search: which drivers, how long the chains, which values
+// and which charts an upgrade may choose given the deployed chart version.
+type plan struct {
+	Name    string
+	Drivers []string
+	Depth   int
+	Inits   []string
+	Vals    []namedVals
+	Charts  string // "next" | "same,next" | "all"
 }
 
-func boundsOf(tier string) bounds {
+var (
+	initsQuick    = []string{"i-none", "i-a5-bu", "i-amap", "i-anull"}
+	initsThorough = []string{"i-none", "i-a5-bu", "i-amap", "i-anull", "i2-a5-bu", "i2-amap"}
+)
+
+func plans(tier string) []plan {
+	vals7 := append(append([]namedVals{}, stepValues...), stepValuesThorough...)
 	if tier == "thorough" {
-		return bounds{depth: 4, inits: []string{"i-none", "i-a5-bu", "i-amap", "i-anull", "i2-a5-bu", "i2-amap"},
-			vals:    append(append([]namedVals{}, stepValues...), stepValuesThorough...),
-			chartsF: func(string) []string { return []string{"1", "2", "3"} }}
+		return []plan{
+			{"mem-len3-allcharts", []string{"memory"}, 3, initsThorough, vals7, "all"},
+			{"mem-len4-nextchart", []string{"memory"}, 4, initsThorough, stepValues, "next"},
+			{"sec-len3-same+next", []string{"secrets"}, 3, initsThorough, vals7, "same,next"},
+			{"sec-len4-nextchart", []string{"secrets"}, 4, []string{"i-a5-bu", "i-amap"}, stepValues, "next"},
+		}
 	}
-	return bounds{depth: 3, inits: []string{"i-none", "i-a5-bu", "i-amap", "i-anull"}, vals: stepValues,
-		chartsF: func(string) []string { return []string{"1", "2", "3"} }}
+	return []plan{
+		{"mem-len3-same+next", []string{"memory"}, 3, initsQuick, stepValues, "same,next"},
+		{"sec-len3-nextchart", []string{"secrets"}, 3, initsQuick, stepValues, "next"},
+	}
 }
 
-func config(tier string) *opspace.Config {
-	b := boundsOf(tier)
+func nextChart(v string) string {
+	switch v {
+	case "1":
+		return "2"
+	case "2":
+		return "3"
+	}
+	return "1"
+}
+
+func (p plan) charts(deployedChart string) []string {
+	switch p.Charts {
+	case "next":
+		return []string{nextChart(deployedChart)}
+	case "same,next":
+		return []string{deployedChart, nextChart(deployedChart)}
+	}
+	return []string{"1", "2", "3"}
+}
+
+func makeInit(drv, init string) *hx.World {
+	w := hx.NewWorld(drv)
+	is := installs[init]
+	w.Exec(hx.Op{Kind: "install", Release: "r", Chart: chartSpec(is.Chart), Values: is.V}, nil)
+	return w
+}
+
+// replayConfig is all ReplayPath needs: the initial state and the oracle.
+func replayConfig(check func(*core.Ctx, *opspace.Transition)) *opspace.Config {
+	return &opspace.Config{Property: prop, MakeInit: makeInit, Check: check}
+}
+
+func config(p plan, tier string) *opspace.Config {
 	lastBad := false
+	perKey := map[string]int{}
 	cfg := &opspace.Config{
 		Property: prop,
-		Drivers:  []string{"memory", "secrets"},
-		Inits:    b.inits,
-		MakeInit: func(drv, init string) *hx.World {
-			w := hx.NewWorld(drv)
-			is := installs[init]
-			w.Exec(hx.Op{Kind: "install", Release: "r", Chart: chartSpec(is.Chart), Values: is.V}, nil)
-			return w
-		},
-		Alphabet: func(_ *hx.World, hist []*rspb.Release, _ []opspace.Step) []opspace.Step {
+		Drivers:  p.Drivers,
+		Inits:    p.Inits,
+		MakeInit: makeInit,
+		Alphabet: func(_ *hx.World, hist []*rspb.Release, path []opspace.Step) []opspace.Step {
 			var out []opspace.Step
+			if len(path) == 0 {
+				// The first step only decides which worker explores the subtree (unit i goes to
+				// shard i mod n). In generation order i mod 4 is the mode, so whole modes would
+				// land on one worker; order the first steps by a fixed hash instead. Every first
+				// step is still enumerated.
+				defer func() {
+					sort.SliceStable(out, func(i, j int) bool {
+						return core.Hash64(out[i].String()) < core.Hash64(out[j].String())
+					})
+				}()
+			}
 			dep := deployed(hist)
-			depChart := ""
+			depChart := "1"
 			if dep != nil && dep.Chart != nil && dep.Chart.Metadata != nil {
 				depChart = dep.Chart.Metadata.Version
 			}
-			// simplest first: values outermost so that "none" / one key come first
-			for _, ch := range b.chartsF(depChart) {
-				for _, v := range b.vals {
+			// simplest first: no values, then one key
+			for _, v := range p.Vals {
+				for _, ch := range p.charts(depChart) {
 					for _, m := range modes {
 						out = append(out, opspace.Step{Op: upgradeOp(m, ch, v.V)})
 					}
@@ -190,9 +243,11 @@ func config(tier string) *opspace.Config {
 			}
 			return out
 		},
-		MaxDepth: b.depth,
+		MaxDepth: p.Depth,
 		Check: func(c *core.Ctx, t *opspace.Transition) {
-			lastBad = !check(c, t)
+			v := evaluate(t)
+			lastBad = !v.Continue
+			apply(c, t, v, tier, perKey)
 		},
 		Expand: func(*opspace.Transition) bool { return !lastBad },
 		KeyExtra: func(t *opspace.Transition) string {
@@ -215,37 +270,35 @@ func config(tier string) *opspace.Config {
 }
 
 func run(c *core.Ctx) {
-	cfg := config(c.Tier)
-	b := boundsOf(c.Tier)
-	// --only depth=2,driver=memory,init=i-none restricts the run (debugging; the run is then reported as not exhaustive)
+	// --only plan=<name>,depth=2,driver=memory,init=i-none restricts the run (debugging; reported as not exhaustive)
+	only := map[string]string{}
 	for _, kv := range strings.Split(c.Only, ",") {
-		k, v, ok := strings.Cut(kv, "=")
-		if !ok {
+		if k, v, ok := strings.Cut(kv, "="); ok {
+			only[k] = v
+			c.NotExhaustive("restricted by --only %s", kv)
+		}
+	}
+	for _, p := range plans(c.Tier) {
+		if only["plan"] != "" && only["plan"] != p.Name {
 			continue
 		}
-		c.NotExhaustive("restricted by --only %s", kv)
-		switch k {
-		case "depth":
-			fmt.Sscan(v, &cfg.MaxDepth)
-			b.depth = cfg.MaxDepth
-		case "driver":
-			cfg.Drivers = []string{v}
-		case "init":
-			cfg.Inits = []string{v}
-			b.inits = cfg.Inits
+		if only["depth"] != "" {
+			fmt.Sscan(only["depth"], &p.Depth)
 		}
+		if only["driver"] != "" {
+			p.Drivers = []string{only["driver"]}
+		}
+		if only["init"] != "" {
+			p.Inits = []string{only["init"]}
+		}
+		var vn []string
+		for _, v := range p.Vals {
+			vn = append(vn, v.Name)
+		}
+		c.Bound("plan:"+p.Name, fmt.Sprintf("drivers=%s chain_length<=%d installs=%s step_values=[%s] modes=%s charts_per_upgrade=%s rollback=every-stored-revision",
+			strings.Join(p.Drivers, ","), p.Depth, strings.Join(p.Inits, ","), strings.Join(vn, " "), strings.Join(modes, ","), p.Charts))
+		config(p, c.Tier).Run(c)
 	}
-	c.Bound("chain_length", fmt.Sprint(b.depth))
-	c.Bound("install_value_sets", strings.Join(b.inits, ","))
-	var vn []string
-	for _, v := range b.vals {
-		vn = append(vn, v.Name)
-	}
-	c.Bound("step_values", strings.Join(vn, " "))
-	c.Bound("modes", strings.Join(modes, ","))
-	c.Bound("charts", "v1,v2,v3 at every upgrade")
-	c.Bound("drivers", "memory,secrets")
-	cfg.Run(c)
 }
 
 type replayData struct {
@@ -259,8 +312,9 @@ func replay(c *core.Ctx, data json.RawMessage) []core.Violation {
 	if err := json.Unmarshal(data, &rd); err != nil {
 		return nil
 	}
-	cfg := config(rd.Tier)
-	cfg.ReplayPath(c, rd.Replay)
+	replayConfig(func(c *core.Ctx, t *opspace.Transition) {
+		apply(c, t, evaluate(t), rd.Tier, nil)
+	}).ReplayPath(c, rd.Replay)
 	return core.FilterKey(c.TakeViolations(), rd.Key)
 }
 
@@ -486,55 +540,71 @@ func hasFloat(v any) bool {
 
 // ---------- the transition oracle ----------
 
-// check returns false when the search must not continue from t.Post.
-func check(c *core.Ctx, t *opspace.Transition) bool {
+type finding struct {
+	Key  string
+	What string
+}
+
+// verdict is everything evaluate says about one transition; apply books it.
+type verdict struct {
+	Findings []finding
+	// Continue: the search may go on from the post-state.
+	Continue bool
+	// Counted: the step succeeded and created a revision (a non-trivial case).
+	Counted  bool
+	Outcome  string
+	Floors   []string
+	Sample   any
+	NotExh   string // a condition outside the property stopped the evaluation
+	NoteText string
+}
+
+// evaluate is the oracle: pure function of the transition.
+func evaluate(t *opspace.Transition) (v verdict) {
 	op, res := t.Step.Op, t.Res
 	mode := modeOf(op)
 	pre, post := t.PreHist, t.PostHist
 	dep := deployed(pre)
-	ok := true
 	violate := func(clause, shape, what string) {
-		ok = false
 		key := core.SanitizeKey(clause + "|" + mode + "|" + shape)
-		c.Violate(prop, key, fmt.Sprintf("%s: %s [driver=%s install=%s history=%v]", clause, what, t.Driver, t.Init, opspace.PathStrings(t.Path)),
-			replayData{Replay: opspace.Replay{Driver: t.Driver, Init: t.Init, Path: t.Path}, Key: key, Tier: c.Tier})
+		v.Findings = append(v.Findings, finding{key, fmt.Sprintf("%s: %s [driver=%s install=%s history=%v]", clause, what, t.Driver, t.Init, opspace.PathStrings(t.Path))})
 	}
 	ds := refDefaults(t.Init, t.Path)
 
-	// the install that produced the initial state (checked once per first step)
+	// the install that produced the initial state (evaluated with every first step)
 	if t.Depth == 1 {
 		is := installs[t.Init]
-		if r := find(pre, 1); r == nil || len(pre) != 1 {
-			c.NotExhaustive("install %s did not produce exactly revision 1", t.Init)
-			return false
-		} else {
-			if got, want := canon(normMap(r.Config)), canon(normMap(is.V)); got != want {
-				violate("install-config", "values="+valuesName(is.V), fmt.Sprintf("install recorded user values %s, given %s", got, want))
-			}
-			pv, why := probeOfManifest(r.Manifest)
-			want := canon(dropNulls(effective(ds[1], normMap(is.V))))
-			if why != "" || canon(dropNulls(pv)) != want {
-				violate("install-render", "values="+valuesName(is.V), fmt.Sprintf("install rendered values %s%s, want %s", canon(pv), why, want))
-			}
+		r := find(pre, 1)
+		if r == nil || len(pre) != 1 {
+			v.NotExh = fmt.Sprintf("install %s did not produce exactly revision 1", t.Init)
+			return v
+		}
+		if got, want := canon(normMap(r.Config)), canon(normMap(is.V)); got != want {
+			violate("install-config", "values="+valuesName(is.V), fmt.Sprintf("install recorded user values %s, given %s", got, want))
+		}
+		pv, why := probeOfManifest(r.Manifest)
+		want := canon(dropNulls(effective(ds[1], normMap(is.V))))
+		if why != "" || canon(dropNulls(pv)) != want {
+			violate("install-render", "values="+valuesName(is.V), fmt.Sprintf("install rendered values %s%s, want %s", canon(pv), why, want))
 		}
 	}
 	if dep == nil {
-		c.NotExhaustive("no deployed revision before %s", t.Step.String())
-		return false
+		v.NotExh = "no deployed revision before " + t.Step.String()
+		return v
 	}
 	if res.Failed {
 		// a fault-free step with valid input is expected to succeed; the property speaks about successful steps only
-		c.Outcome(mode + ":failed:" + res.ErrClass())
-		c.Note("step failed: %s: %s", t.Step.String(), res.Err)
-		return false
+		v.Outcome = mode + ":failed:" + res.ErrClass()
+		v.NoteText = fmt.Sprintf("step failed: %s: %s", t.Step.String(), res.Err)
+		return v
+	}
+	if len(post) != len(pre)+1 || post[len(post)-1].Version != pre[len(pre)-1].Version+1 || post[len(post)-1].Version != t.Depth+1 {
+		v.Outcome = mode + ":ledger-unexpected"
+		v.NotExh = fmt.Sprintf("ledger after %v is %s (C01's business); not continued", opspace.PathStrings(t.Path), hx.StatusVector(post))
+		return v
 	}
 	nr := post[len(post)-1]
-	if len(post) != len(pre)+1 || nr.Version != pre[len(pre)-1].Version+1 || nr.Version != t.Depth+1 {
-		c.Outcome(mode + ":ledger-unexpected")
-		c.NotExhaustive("ledger after %v is %s (C01's business); not continued", opspace.PathStrings(t.Path), hx.StatusVector(post))
-		return false
-	}
-	c.Distinct(t.Pre.Canon() + "|" + t.Step.String())
+	v.Counted = true
 
 	depCfg := normMap(dep.Config)
 	nw := normMap(op.Values)
@@ -542,8 +612,8 @@ func check(c *core.Ctx, t *opspace.Transition) bool {
 	if mode == "rollback" {
 		tgt := find(pre, op.Version)
 		if tgt == nil {
-			c.NotExhaustive("rollback target %d missing", op.Version)
-			return false
+			v.NotExh = fmt.Sprintf("rollback target %d missing", op.Version)
+			return v
 		}
 		tgtCfg = normMap(tgt.Config)
 	}
@@ -558,8 +628,7 @@ func check(c *core.Ctx, t *opspace.Transition) bool {
 	}
 
 	// K1: the recorded user values of the new revision
-	cfgOK := canon(got) == canon(want)
-	if !cfgOK {
+	if canon(got) != canon(want) {
 		violate("config", shape, fmt.Sprintf("revision %d records user values %s, want %s (deployed revision %d had %s, new values %s)",
 			nr.Version, canon(got), canon(want), dep.Version, canon(depCfg), canon(nw)))
 	}
@@ -576,14 +645,15 @@ func check(c *core.Ctx, t *opspace.Transition) bool {
 	// K3: rendered values = effective(defaults in force, values recorded for this revision)
 	dn := ds[nr.Version]
 	wantE := canon(dropNulls(effective(dn, got)))
-	rshape := fmt.Sprintf("%s|defaults.a=%s", shape, kindOf(dn, "a"))
 	pv, why := probeOfManifest(nr.Manifest)
 	if why != "" || canon(dropNulls(pv)) != wantE {
-		violate("render", rshape, fmt.Sprintf("revision %d renders values %s%s, want %s = defaults in force %s overridden by its recorded user values %s (deployed revision %d had %s, new values %s)",
+		violate("render", shape, fmt.Sprintf("revision %d renders values %s%s, want %s = defaults in force %s overridden by its recorded user values %s (deployed revision %d had %s, new values %s)",
 			nr.Version, canon(pv), why, wantE, canon(dn), canon(got), dep.Version, canon(depCfg), canon(nw)))
 	} else if cv, why := probeOfCluster(t.Post); why != "" || canon(dropNulls(cv)) != wantE {
-		violate("cluster-render", rshape, fmt.Sprintf("probe in the cluster after revision %d has values %s%s, want %s", nr.Version, canon(cv), why, wantE))
+		violate("cluster-render", shape, fmt.Sprintf("probe in the cluster after revision %d has values %s%s, want %s", nr.Version, canon(cv), why, wantE))
 	}
+	ok := len(v.Findings) == 0
+	v.Continue = ok
 
 	// outcome classes and vacuity floors (all computed on the reference side)
 	class := "other"
@@ -605,70 +675,183 @@ func check(c *core.Ctx, t *opspace.Transition) bool {
 	} else if mode != "rollback" && canon(normMap(op.Chart.Values)) != canon(dn) {
 		dclass = "defaults-kept"
 	}
-	verdict := "ok"
-	if !ok {
-		verdict = "violation"
-	}
-	c.Outcome(mode + ":" + class + ":" + dclass + ":" + verdict)
 	if ok {
-		switch mode {
-		case "reuse", "reset-then-reuse":
-			if class == "overlaid" {
-				c.Floor("overlay-both-contribute")
-			}
-			if om, _ := depCfg["a"].(map[string]any); om != nil {
-				if wm, _ := want["a"].(map[string]any); wm != nil && len(wm) > len(om) {
-					c.Floor("overlay-nested-merge")
-				}
-			}
-			if kindOf(depCfg, "a") == "scalar" && kindOf(want, "a") == "map" {
-				c.Floor("type-scalar-to-map")
-			}
-			if kindOf(depCfg, "a") == "map" && kindOf(want, "a") == "scalar" {
-				c.Floor("type-map-to-scalar")
-			}
-			if mode == "reuse" && dclass == "defaults-kept" {
-				c.Floor("defaults-stay-old")
-			}
-			if mode == "reuse" && t.Depth >= 2 && t.Path[t.Depth-2].Op.ReuseValues {
-				c.Floor("chain-reuse-reuse")
-			}
-		case "default":
-			if len(nw) == 0 && len(depCfg) > 0 {
-				c.Floor("carry-forward")
-			}
-			if len(nw) > 0 && len(depCfg) > 0 && class == "new-only" {
-				c.Floor("default-replaced")
-			}
-		case "reset":
-			for k := range depCfg {
-				if _, in := want[k]; !in {
-					c.Floor("reset-drops-old")
-				}
-			}
-		case "rollback":
-			if canon(tgtCfg) != canon(depCfg) {
-				c.Floor("rollback-restores-different")
-			}
-			if op.Version >= 2 && t.Path[op.Version-2].Op.ReuseValues {
-				c.Floor("rollback-to-reuse-revision")
+		v.Outcome = mode + ":" + class + ":" + dclass + ":ok"
+	} else {
+		v.Outcome = mode + ":" + class + ":" + dclass + ":violation"
+		return v
+	}
+	floor := func(f string) { v.Floors = append(v.Floors, f) }
+	switch mode {
+	case "reuse", "reset-then-reuse":
+		if class == "overlaid" {
+			floor("overlay-both-contribute")
+		}
+		if om, _ := depCfg["a"].(map[string]any); om != nil {
+			if wm, _ := want["a"].(map[string]any); wm != nil && len(wm) > len(om) {
+				floor("overlay-nested-merge")
 			}
 		}
-		if mode != "reuse" && mode != "rollback" && dclass == "defaults-new" {
-			c.Floor("defaults-switch-new")
+		if kindOf(depCfg, "a") == "scalar" && kindOf(want, "a") == "map" {
+			floor("type-scalar-to-map")
 		}
-		if kindOf(want, "a") == "null" {
-			c.Floor("null-recorded")
+		if kindOf(depCfg, "a") == "map" && kindOf(want, "a") == "scalar" {
+			floor("type-map-to-scalar")
 		}
-		if t.Driver == "secrets" && hasFloat(any(dep.Config)) {
-			c.Floor("secrets-json-roundtrip")
+		if mode == "reuse" && dclass == "defaults-kept" {
+			floor("defaults-stay-old")
 		}
-		if t.Depth == 3 && (class == "overlaid" || mode == "rollback") {
-			c.Sample(map[string]any{"driver": t.Driver, "install": t.Init, "history": opspace.PathStrings(t.Path),
-				"recorded_values": recorded(post), "rendered_values_of_new_revision": pv})
+		if mode == "reuse" && t.Depth >= 2 && t.Path[t.Depth-2].Op.ReuseValues {
+			floor("chain-reuse-reuse")
+		}
+	case "default":
+		if len(nw) == 0 && len(depCfg) > 0 {
+			floor("carry-forward")
+		}
+		if len(nw) > 0 && len(depCfg) > 0 && class == "new-only" {
+			floor("default-replaced")
+		}
+	case "reset":
+		for k := range depCfg {
+			if _, in := want[k]; !in {
+				floor("reset-drops-old")
+				break
+			}
+		}
+	case "rollback":
+		if canon(tgtCfg) != canon(depCfg) {
+			floor("rollback-restores-different")
+		}
+		if op.Version >= 2 && t.Path[op.Version-2].Op.ReuseValues {
+			floor("rollback-to-reuse-revision")
 		}
 	}
-	return ok
+	if mode != "reuse" && mode != "rollback" && dclass == "defaults-new" {
+		floor("defaults-switch-new")
+	}
+	if kindOf(want, "a") == "null" {
+		floor("null-recorded")
+	}
+	if t.Driver == "secrets" && hasFloat(any(dep.Config)) {
+		floor("secrets-json-roundtrip")
+	}
+	if t.Depth == 3 && (class == "overlaid" || mode == "rollback") {
+		v.Sample = map[string]any{"driver": t.Driver, "install": t.Init, "history": opspace.PathStrings(t.Path),
+			"recorded_values": recorded(post), "rendered_values_of_new_revision": pv}
+	}
+	return v
+}
+
+// apply books a verdict into the run's counters. perKey (nil in replays)
+// counts the violations of a key seen by this worker: the first two of every
+// key are minimised before they are recorded.
+func apply(c *core.Ctx, t *opspace.Transition, v verdict, tier string, perKey map[string]int) {
+	if v.NotExh != "" {
+		c.NotExhaustive("%s", v.NotExh)
+	}
+	if v.NoteText != "" {
+		c.Note("%s", v.NoteText)
+	}
+	if v.Outcome != "" {
+		c.Outcome(v.Outcome)
+	}
+	if v.Counted {
+		c.Distinct(t.Pre.Canon() + "|" + t.Step.String())
+	}
+	for _, f := range v.Floors {
+		c.Floor(f)
+	}
+	if v.Sample != nil {
+		c.Sample(v.Sample)
+	}
+	for _, f := range v.Findings {
+		r := opspace.Replay{Driver: t.Driver, Init: t.Init, Path: t.Path}
+		what := f.What
+		if perKey != nil {
+			perKey[f.Key]++
+			if perKey[f.Key] <= 2 {
+				r, what = minimise(r, f)
+			}
+		}
+		c.Violate(prop, f.Key, what, replayData{Replay: r, Key: f.Key, Tier: tier})
+	}
+}
+
+// lastFinding replays a history and returns the finding with the given key
+// reported for its last step, if any.
+func lastFinding(r opspace.Replay, key string) (finding, bool) {
+	var last verdict
+	replayConfig(func(_ *core.Ctx, t *opspace.Transition) { last = evaluate(t) }).ReplayPath(nil, r)
+	for _, f := range last.Findings {
+		if f.Key == key {
+			return f, true
+		}
+	}
+	return finding{}, false
+}
+
+// minimise greedily drops steps before the failing one (renumbering rollback
+// targets) and then tries the simpler installs, as long as the last step still
+// yields a finding with the same key.
+func minimise(r opspace.Replay, f finding) (opspace.Replay, string) {
+	what := f.What
+	// shortest first: the failing step alone after each install
+	if len(r.Path) > 1 {
+		for _, init := range initsThorough {
+			cand := opspace.Replay{Driver: r.Driver, Init: init, Path: r.Path[len(r.Path)-1:]}
+			if cand.Path[0].Op.Kind == "rollback" {
+				break
+			}
+			if nf, hit := lastFinding(cand, f.Key); hit {
+				return cand, nf.What
+			}
+		}
+	}
+	for changed := true; changed; {
+		changed = false
+		for i := 0; i < len(r.Path)-1; i++ {
+			cand, ok := dropStep(r, i)
+			if !ok {
+				continue
+			}
+			if nf, hit := lastFinding(cand, f.Key); hit {
+				r, what, changed = cand, nf.What, true
+				break
+			}
+		}
+	}
+	for _, init := range initsThorough {
+		if init == r.Init {
+			break
+		}
+		cand := r
+		cand.Init = init
+		if nf, hit := lastFinding(cand, f.Key); hit {
+			r, what = cand, nf.What
+			break
+		}
+	}
+	return r, what
+}
+
+// dropStep removes step i (which created revision i+2).
+func dropStep(r opspace.Replay, i int) (opspace.Replay, bool) {
+	out := opspace.Replay{Driver: r.Driver, Init: r.Init}
+	for j, st := range r.Path {
+		if j == i {
+			continue
+		}
+		if j > i && st.Op.Kind == "rollback" {
+			switch {
+			case st.Op.Version == i+2:
+				return out, false
+			case st.Op.Version > i+2:
+				st.Op.Version--
+			}
+		}
+		out.Path = append(out.Path, st)
+	}
+	return out, true
 }
 
 func recorded(h []*rspb.Release) []string {
